@@ -30,74 +30,80 @@ def sh(cmd, cwd=None, env=None, timeout=300):
     return p.returncode, p.stdout
 
 
+def one(d, want, head):
+    pid = d.split("/")[3]
+    x = os.path.basename(d)
+    if want and pid not in want:
+        return
+    name = "{}-{}{}".format(pid, os.environ.get("SEED_TAG", ""), x)
+    patch = os.path.join(d, "patch.diff")
+    demo = os.path.join(d, "demo.py")
+    if not (os.path.exists(patch) and os.path.exists(demo)):
+        print(name, "INCOMPLETE")
+        return
+    if os.path.exists(os.path.join(OUT, name)):
+        print(name, "already harvested")
+        return
+    wt = WT + "_" + name
+    if os.path.exists(wt):
+        sh("git -C /repo worktree remove --force " + wt)
+    rc, out = sh("git -C /repo worktree add --detach {} HEAD".format(wt))
+    assert rc == 0, out
+    env = dict(os.environ, PYTHONPATH=wt + "/src")
+    try:
+        rc_clean, o1 = sh(["/venv/bin/python", demo], cwd=wt, env=env, timeout=180)
+        rc_apply, o2 = sh(["git", "apply", patch], cwd=wt)
+        if rc_apply != 0:
+            rc_apply, o2 = sh(["git", "apply", "-3", patch], cwd=wt)
+        if rc_apply != 0:
+            print(name, "PATCH DOES NOT APPLY on", head, o2[-300:])
+            return
+        rc_comp, o3 = sh(["/venv/bin/python", "-m", "compileall", "-q", "src"], cwd=wt)
+        rc_pat, o4 = sh(["/venv/bin/python", demo], cwd=wt, env=env, timeout=180)
+        rc_base, o5 = sh(["/venv/bin/python", "/verif/tools/baseline_check.py", wt], timeout=900)
+        ok = rc_clean == 0 and rc_comp == 0 and rc_pat != 0 and rc_base == 0
+        print(name, "clean=%d patched=%d compile=%d baseline=%d -> %s" % (
+            rc_clean, rc_pat, rc_comp, rc_base, "CONFIRMED" if ok else "REJECTED"), flush=True)
+        if not ok:
+            if rc_clean != 0:
+                print("   clean demo output:", o1[-400:])
+            if rc_base != 0:
+                print("   baseline:", o5[-400:])
+            return
+        dst = os.path.join(OUT, name)
+        os.makedirs(dst, exist_ok=True)
+        # regenerate the patch against HEAD so that it applies cleanly to /repo
+        _, diff = sh("git diff HEAD -- src", cwd=wt)
+        open(os.path.join(dst, "patch.diff"), "w").write(diff)
+        shutil.copy(demo, os.path.join(dst, "demo.py"))
+        try:
+            meta = json.load(open(os.path.join(d, "meta.json")))
+        except Exception:  # noqa: BLE001
+            meta = {}
+        meta["property"] = pid
+        meta["confirmed"] = {
+            "against_repo_commit": head,
+            "ran": [
+                "scratch worktree of /repo HEAD under /tmp (removed afterwards)",
+                "demo.py on clean tree -> exit 0",
+                "git apply patch.diff; python -m compileall src -> ok",
+                "demo.py with patch -> exit %d" % rc_pat,
+                "tools/baseline_check.py -> 729 stable tests pass, 0 regressed",
+            ],
+            "patched_demo_output_tail": o4[-600:],
+        }
+        json.dump(meta, open(os.path.join(dst, "meta.json"), "w"), indent=1, ensure_ascii=False)
+    finally:
+        sh("git -C /repo worktree remove --force " + wt)
+
+
 def main():
+    import concurrent.futures as cf
     want = sys.argv[1:]
     head = sh("git -C /repo rev-parse --short HEAD")[1].strip()
-    if os.path.exists(WT):
-        sh("git -C /repo worktree remove --force " + WT)
-    rc, out = sh("git -C /repo worktree add --detach {} HEAD".format(WT))
-    assert rc == 0, out
-    env = dict(os.environ, PYTHONPATH=WT + "/src")
-    try:
-        for d in sorted(glob.glob(SEEDROOT + "/C*/SEED/*")):
-            pid = d.split("/")[3]
-            x = os.path.basename(d)
-            if want and pid not in want:
-                continue
-            name = "{}-{}{}".format(pid, os.environ.get("SEED_TAG", ""), x)
-            patch = os.path.join(d, "patch.diff")
-            demo = os.path.join(d, "demo.py")
-            if not (os.path.exists(patch) and os.path.exists(demo)):
-                print(name, "INCOMPLETE")
-                continue
-            if os.path.exists(os.path.join(OUT, name)):
-                print(name, "already harvested")
-                continue
-            sh("git checkout -q -- . && git clean -fdq", cwd=WT)
-            rc_clean, o1 = sh(["/venv/bin/python", demo], cwd=WT, env=env, timeout=180)
-            rc_apply, o2 = sh(["git", "apply", patch], cwd=WT)
-            if rc_apply != 0:
-                rc_apply, o2 = sh(["git", "apply", "-3", patch], cwd=WT)
-            if rc_apply != 0:
-                print(name, "PATCH DOES NOT APPLY on", head, o2[-300:])
-                continue
-            rc_comp, o3 = sh(["/venv/bin/python", "-m", "compileall", "-q", "src"], cwd=WT)
-            rc_pat, o4 = sh(["/venv/bin/python", demo], cwd=WT, env=env, timeout=180)
-            rc_base, o5 = sh(["/venv/bin/python", "/verif/tools/baseline_check.py", WT], timeout=900)
-            ok = rc_clean == 0 and rc_comp == 0 and rc_pat != 0 and rc_base == 0
-            print(name, "clean=%d patched=%d compile=%d baseline=%d -> %s" % (
-                rc_clean, rc_pat, rc_comp, rc_base, "CONFIRMED" if ok else "REJECTED"))
-            if not ok:
-                if rc_clean != 0:
-                    print("   clean demo output:", o1[-400:])
-                if rc_base != 0:
-                    print("   baseline:", o5[-400:])
-                continue
-            dst = os.path.join(OUT, name)
-            os.makedirs(dst, exist_ok=True)
-            # regenerate the patch against HEAD so that it applies cleanly to /repo
-            _, diff = sh("git diff HEAD -- src", cwd=WT)
-            open(os.path.join(dst, "patch.diff"), "w").write(diff)
-            shutil.copy(demo, os.path.join(dst, "demo.py"))
-            try:
-                meta = json.load(open(os.path.join(d, "meta.json")))
-            except Exception:  # noqa: BLE001
-                meta = {}
-            meta["property"] = pid
-            meta["confirmed"] = {
-                "against_repo_commit": head,
-                "ran": [
-                    "scratch worktree of /repo HEAD under /tmp (removed afterwards)",
-                    "demo.py on clean tree -> exit 0",
-                    "git apply patch.diff; python -m compileall src -> ok",
-                    "demo.py with patch -> exit %d" % rc_pat,
-                    "tools/baseline_check.py -> 729 stable tests pass, 0 regressed",
-                ],
-                "patched_demo_output_tail": o4[-600:],
-            }
-            json.dump(meta, open(os.path.join(dst, "meta.json"), "w"), indent=1, ensure_ascii=False)
-    finally:
-        sh("git -C /repo worktree remove --force " + WT)
+    dirs = sorted(glob.glob(SEEDROOT + "/C*/SEED/*"))
+    with cf.ThreadPoolExecutor(max_workers=8) as ex:
+        list(ex.map(lambda d: one(d, want, head), dirs))
 
 
 main()
